@@ -418,12 +418,18 @@ nfa, with no epsilon transition
 
         """
         from pyformlang.regular_expression import Regex
-        enfas = [self.copy() for _ in self._final_states]
-        final_states = list(self._final_states)
-        for i in range(len(self._final_states)):
-            for j in range(len(self._final_states)):
-                if i != j:
-                    enfas[j].remove_final_state(final_states[i])
+        # One automaton per pair (start state, final state)
+        enfas = []
+        for start_state in self._start_state:
+            for final_state in self._final_states:
+                enfa = self.copy()
+                for other_state in self._start_state:
+                    if other_state != start_state:
+                        enfa.remove_start_state(other_state)
+                for other_state in self._final_states:
+                    if other_state != final_state:
+                        enfa.remove_final_state(other_state)
+                enfas.append(enfa)
         regex_l = []
         for enfa in enfas:
             # pylint: disable=protected-access
